@@ -393,13 +393,26 @@ func discoverLexRoles(c *Ctx) *lexRoles {
 	if r.advance == nil || r.curF == nil || r.nextF == nil || r.curF == r.nextF {
 		fatalf("lexer: cannot identify the advance method and its current/next cursor fields")
 	}
-	if fn, ok := p.Types.Scope().Lookup("newToken").(*types.Func); ok {
-		r.newToken = fn
-	} else {
-		fatalf("anchor unresolved: lexer.newToken")
-	}
 	r.tokenT = p.Types.Scope().Lookup("Token").Type().(*types.Named)
 	r.kindT = p.Types.Scope().Lookup("TokenKind").Type().(*types.Named)
+	// the token constructor, by signature: the package-level function (TokenKind, string, Span) -> Token
+	for _, n := range p.Types.Scope().Names() {
+		fn, ok := p.Types.Scope().Lookup(n).(*types.Func)
+		if !ok {
+			continue
+		}
+		sig := fn.Type().(*types.Signature)
+		if sig.Recv() == nil && sig.Results().Len() == 1 && types.Identical(sig.Results().At(0).Type(), r.tokenT) &&
+			sig.Params().Len() == 3 && types.Identical(sig.Params().At(0).Type(), r.kindT) {
+			if r.newToken != nil {
+				fatalf("anchor ambiguous: two package-level token constructors in lexer (%s, %s)", r.newToken.Name(), fn.Name())
+			}
+			r.newToken = fn
+		}
+	}
+	if r.newToken == nil {
+		fatalf("anchor unresolved: the lexer's token constructor (TokenKind, string, Span) -> Token")
+	}
 	ep := c.Pkg("homescript/errors")
 	r.spanT = ep.Types.Scope().Lookup("Span").Type().(*types.Named)
 	locT := ep.Types.Scope().Lookup("Location").Type().(*types.Named)
@@ -453,25 +466,31 @@ func (r *lexRoles) loadPredsOf(c *Ctx, up *packages.Package) {
 						}
 						var lo, hi int64
 						var okLo, okHi bool
+						// which field is the lower / upper bound is read from the helper's own comparison
+						loF, hiF := inclusiveRangeFields(info, decls[fn])
+						if loF == nil || hiF == nil {
+							return runeSet{}, false
+						}
+						st, _ := info.TypeOf(cl).Underlying().(*types.Struct)
 						for i, el := range cl.Elts {
-							var name string
+							var fld *types.Var
 							val := el
 							if kv, ok := el.(*ast.KeyValueExpr); ok {
-								name = kv.Key.(*ast.Ident).Name
+								if kid, ok := kv.Key.(*ast.Ident); ok {
+									fld, _ = info.Uses[kid].(*types.Var)
+								}
 								val = kv.Value
-							} else if i == 0 {
-								name = "min"
-							} else {
-								name = "max"
+							} else if st != nil && i < st.NumFields() {
+								fld = st.Field(i)
 							}
 							tv := info.Types[val]
-							if tv.Value == nil {
+							if tv.Value == nil || fld == nil {
 								return runeSet{}, false
 							}
 							n, _ := constant.Int64Val(constant.ToInt(tv.Value))
-							if name == "min" {
+							if fld == loF {
 								lo, okLo = n, true
-							} else if name == "max" {
+							} else if fld == hiF {
 								hi, okHi = n, true
 							}
 						}
@@ -479,10 +498,6 @@ func (r *lexRoles) loadPredsOf(c *Ctx, up *packages.Package) {
 							return runeSet{}, false
 						}
 						rs.ranges = append(rs.ranges, [2]rune{rune(lo), rune(hi)})
-					}
-					// the helper itself must be the inclusive-range test
-					if !isInclusiveRangeHelper(info, decls[fn]) {
-						return runeSet{}, false
 					}
 					return rs.norm(), true
 				}
@@ -603,10 +618,16 @@ func boundOf(info *types.Info, e ast.Expr, param *types.Var, lower bool) (rune, 
 // isInclusiveRangeHelper verifies the shape of IsRuneInRange: a loop over the
 // variadic ranges returning true iff x >= r.min && x <= r.max, else false.
 func isInclusiveRangeHelper(info *types.Info, fd *ast.FuncDecl) bool {
+	lo, hi := inclusiveRangeFields(info, fd)
+	return lo != nil && hi != nil
+}
+
+// inclusiveRangeFields: the helper returns true iff x >= r.LO && x <= r.HI for one of its
+// variadic ranges, else false; the result names the two struct fields by their role.
+func inclusiveRangeFields(info *types.Info, fd *ast.FuncDecl) (loF, hiF *types.Var) {
 	if fd == nil {
-		return false
+		return nil, nil
 	}
-	ok := false
 	ast.Inspect(fd.Body, func(n ast.Node) bool {
 		ifs, isIf := n.(*ast.IfStmt)
 		if !isIf {
@@ -616,33 +637,63 @@ func isInclusiveRangeHelper(info *types.Info, fd *ast.FuncDecl) bool {
 		if !isB || b.Op != token.LAND {
 			return true
 		}
-		l, ok1 := ast.Unparen(b.X).(*ast.BinaryExpr)
-		r, ok2 := ast.Unparen(b.Y).(*ast.BinaryExpr)
-		if !ok1 || !ok2 {
-			return true
-		}
-		selName := func(e ast.Expr) string {
-			if s, ok := ast.Unparen(e).(*ast.SelectorExpr); ok {
-				return s.Sel.Name
+		// each conjunct: x >= r.F (lower), x <= r.F (upper), or mirrored r.F <= x / r.F >= x
+		var subj string
+		var lo, hi *types.Var
+		okAll := true
+		for _, cj := range []ast.Expr{b.X, b.Y} {
+			c, ok := ast.Unparen(cj).(*ast.BinaryExpr)
+			if !ok {
+				okAll = false
+				break
 			}
-			return ""
-		}
-		if l.Op == token.GEQ && selName(l.Y) == "min" && r.Op == token.LEQ && selName(r.Y) == "max" && exprStr(l.X) == exprStr(r.X) {
-			if len(ifs.Body.List) == 1 {
-				if ret, isRet := ifs.Body.List[0].(*ast.ReturnStmt); isRet && len(ret.Results) == 1 && exprStr(ret.Results[0]) == "true" {
-					ok = true
+			fieldOf := func(e ast.Expr) *types.Var {
+				if s, ok := ast.Unparen(e).(*ast.SelectorExpr); ok {
+					if v, ok := info.Uses[s.Sel].(*types.Var); ok && v.IsField() {
+						return v
+					}
 				}
+				return nil
+			}
+			x, f, op := c.X, fieldOf(c.Y), c.Op
+			if f == nil {
+				// mirrored
+				x, f = c.Y, fieldOf(c.X)
+				switch op {
+				case token.LEQ:
+					op = token.GEQ
+				case token.GEQ:
+					op = token.LEQ
+				}
+			}
+			if f == nil || (subj != "" && subj != exprStr(x)) {
+				okAll = false
+				break
+			}
+			subj = exprStr(x)
+			switch op {
+			case token.GEQ:
+				lo = f
+			case token.LEQ:
+				hi = f
+			default:
+				okAll = false
+			}
+		}
+		if okAll && lo != nil && hi != nil && len(ifs.Body.List) == 1 {
+			if ret, isRet := ifs.Body.List[0].(*ast.ReturnStmt); isRet && len(ret.Results) == 1 && exprStr(ret.Results[0]) == "true" {
+				loF, hiF = lo, hi
 			}
 		}
 		return true
 	})
 	// final statement returns false
 	if n := len(fd.Body.List); n == 0 {
-		return false
+		return nil, nil
 	} else if ret, isRet := fd.Body.List[n-1].(*ast.ReturnStmt); !isRet || len(ret.Results) != 1 || exprStr(ret.Results[0]) != "false" {
-		return false
+		return nil, nil
 	}
-	return ok
+	return loF, hiF
 }
 
 // ---------------------------------------------------------------------
